@@ -3,7 +3,7 @@ import re
 
 MODULES = ["contracts.c01_analysis", "contracts.c01_converter", "contracts.c11_eager", "contracts.c01_operators", "contracts.c12_anylen:autocast",
            # anchor: OnnxFunction._to_model_proto — called functions collected, opset imports merged (contract shared with C02)
-           "contracts.c02_modelproto:to_model_proto", "contracts.c01_calling"]
+           "contracts.c02_modelproto:to_model_proto", "contracts.c01_calling", "contracts.c01_assign"]
 
 
 def INCLUDE(name):
@@ -190,8 +190,44 @@ sys.exit(0)
 '''
 
 
+PARALLEL_ASSIGN = '''
+# bounded search replay on the REAL converter: parallel assignments whose right-hand sides read the targets (all rotations of up to 3
+# variables), eager / graph (onnxruntime) / plain Python
+import itertools, sys
+import numpy as np
+import onnxruntime as ort
+from onnxscript import script, FLOAT
+from onnxscript import opset18 as op
+bad = 0
+names = ["x", "y", "z"]
+for n in (2, 3):
+    for perm in itertools.permutations(range(n)):
+        lhs = ", ".join(names[:n]); rhs = ", ".join(f"{names[p]} + {names[(p + 1) % n]}" if k == n - 1 else names[p] for k, p in enumerate(perm))
+        src = (f"def f(a: FLOAT[2], b: FLOAT[2]) -> FLOAT[2]:\\n    x = a * 1.0\\n    y = b * 2.0\\n    z = a + b\\n    {lhs} = {rhs}\\n"
+               f"    return x * 100.0 + y * 10.0 + z\\n")
+        g = {"FLOAT": FLOAT, "op": op}
+        import linecache, tempfile, os
+        d = tempfile.mkdtemp(); path = os.path.join(d, "prog.py"); open(path, "w").write("from onnxscript import FLOAT\\nfrom onnxscript import opset18 as op\\n" + src)
+        import importlib.util
+        spec = importlib.util.spec_from_file_location("prog", path); mod = importlib.util.module_from_spec(spec); sys.modules["prog"] = mod; spec.loader.exec_module(mod)
+        try:
+            fn = script(default_opset=op)(mod.f)
+        except Exception as e:
+            print(f"`{lhs} = {rhs}` refused at decoration time ({type(e).__name__}): allowed"); continue
+        a = np.array([1, 2], dtype=np.float32); b = np.array([3, 4], dtype=np.float32)
+        py = mod.f(a, b)
+        eager = np.asarray(fn(a, b))
+        graph = ort.InferenceSession(fn.to_model_proto().SerializeToString()).run(None, {"a": a, "b": b})[0]
+        if not (np.array_equal(py, graph) and np.array_equal(py, eager)):
+            print(f"`{lhs} = {rhs}`: plain Python {py.tolist()}, eager {eager.tolist()}, graph {graph.tolist()}"); bad += 1
+sys.exit(1 if bad else 0)
+'''
+
+
 def replay(ob):
     name = ob["name"]
+    if ".converter.assign." in name or name.startswith("Converter._translate_assign_stmt.loop"):
+        return PARALLEL_ASSIGN
     if name.startswith("C01.calling."):
         return KEYWORD_INPUT
     if "constant_if.name_is_not_a_parameter" in name:
